@@ -190,6 +190,7 @@ func (c *FCtx) oblige(st *State, kind, name string, pos token.Pos, goal *Term, t
 		hyps = append(append([]*Term{}, hyps...), c.Globals...)
 	}
 	o := &Obligation{Name: c.Name + ":" + name, Kind: kind, Goal: goal, Hyps: hyps, Func: c.Name, Text: text}
+	o.DeepInst = c.Contract != nil && c.Contract.Flags["deepinst"] != ""
 	if pos.IsValid() {
 		o.Pos = c.W.relPos(pos)
 	}
@@ -300,7 +301,7 @@ func (e *Env) execBlock(list []ast.Stmt, st *State) []Outcome {
 		if len(cur) == 0 {
 			break
 		}
-		if len(cur) > 1 {
+		if len(cur) > 1 && !e.splitPaths() {
 			if m := e.C.mergeStates(cur); m != nil {
 				cur = []*State{m}
 			}
@@ -326,8 +327,33 @@ func (e *Env) execStmt(s ast.Stmt, st *State) []Outcome {
 			c.specAt = s.Pos()
 			c.runAts(e, st, "before "+ord, nil)
 			c.specAt = saved
+			if c.hasAt("after " + ord) {
+				outs := e.execStmt0(s, st)
+				for _, o := range outs {
+					if o.Kind == oNormal && o.St != nil && !o.St.dead {
+						c.specAt = s.End()
+						c.runAts(e, o.St, "after "+ord, nil)
+						c.specAt = saved
+					}
+				}
+				return outs
+			}
 		}
 	}
+	return e.execStmt0(s, st)
+}
+
+func (c *FCtx) hasAt(where string) bool {
+	for _, at := range c.Contract.Ats {
+		if at.Where == where {
+			return true
+		}
+	}
+	return false
+}
+
+func (e *Env) execStmt0(s ast.Stmt, st *State) []Outcome {
+	c := e.C
 	switch x := s.(type) {
 	case nil:
 		return []Outcome{{Kind: oNormal, St: st}}
@@ -954,7 +980,7 @@ func (e *Env) execIf(x *ast.IfStmt, st *State) []Outcome {
 			}
 		}
 	}
-	if len(normals) > 1 {
+	if len(normals) > 1 && !e.splitPaths() {
 		if m := c.mergeStates(normals); m != nil {
 			normals = []*State{m}
 		}
@@ -963,6 +989,13 @@ func (e *Env) execIf(x *ast.IfStmt, st *State) []Outcome {
 		outs = append(outs, Outcome{Kind: oNormal, St: n})
 	}
 	return outs
+}
+
+// splitPaths: the contract of the function under verification asks for its own branches to be kept as separate
+// paths ("splitpaths"): smaller conditions, more of them. Inlined callees still merge.
+func (e *Env) splitPaths() bool {
+	c := e.C
+	return e.Top && c.Contract != nil && c.Contract.Flags["splitpaths"] != ""
 }
 
 // evalCond evaluates a boolean expression to a term.
@@ -1121,6 +1154,7 @@ func (e *Env) execGotoLoop(list []ast.Stmt, label string, st *State) []Outcome {
 		c.oblige(st, "inv-init", fmt.Sprintf("inv-init(label %s, %s)", label, inv.label), list[0].Pos(), inv.eval(e, st, entry), inv.text)
 	}
 	hs := st
+	var havocked []havockedVar
 	for _, obj := range e.assignedInSt(hs, body) {
 		cur, ok := e.getVar(hs, obj)
 		if !ok {
@@ -1134,8 +1168,12 @@ func (e *Env) execGotoLoop(list []ast.Stmt, label string, st *State) []Outcome {
 		for _, f := range facts {
 			hs.assume(f)
 		}
+		havocked = append(havocked, havockedVar{nv, obj.Type()})
 	}
 	c.havocLoopHeap(e, hs, body, nil, nil, entry)
+	for _, hv := range havocked {
+		c.assumeAllocated(hs, hv.v, hv.t, c.heapGet(hs, "$alloc", SInt))
+	}
 	for _, inv := range invs {
 		hs.assume(inv.eval(e, hs, entry))
 	}
@@ -1325,6 +1363,7 @@ func (e *Env) loopCore(st *State, label string, pos token.Pos, body *ast.BlockSt
 	// 2. havoc
 	targets := e.assignedInSt(st, body, extra...)
 	hs := st
+	var havocked []havockedVar
 	for _, obj := range targets {
 		cur, ok := e.getVar(hs, obj)
 		if !ok {
@@ -1340,8 +1379,13 @@ func (e *Env) loopCore(st *State, label string, pos token.Pos, body *ast.BlockSt
 		for _, f := range facts {
 			hs.assume(f)
 		}
+		havocked = append(havocked, havockedVar{nv, obj.Type()})
 	}
 	c.havocLoopHeap(e, hs, body, extra, spec, entry)
+	// what a local refers to after some iterations has been allocated
+	for _, hv := range havocked {
+		c.assumeAllocated(hs, hv.v, hv.t, c.heapGet(hs, "$alloc", SInt))
+	}
 	// 3. assume invariants
 	for _, inv := range invs {
 		hs.assume(inv.eval(e, hs, entry))
@@ -2101,6 +2145,11 @@ func (c *FCtx) mergeValues(conds []*Term, vals []Value) (Value, bool) {
 }
 
 // ---- havoc ----
+
+type havockedVar struct {
+	v Value
+	t types.Type
+}
 
 // havocAll forgets the whole non-ghost heap.
 func (c *FCtx) havocAll(st *State, why string) {
